@@ -380,7 +380,7 @@ pub fn property() -> Property {
     add!("algebra-Q", "Q", algebra::<Q>, 5000, 400_000, 64, &[("generic", 200)]);
     add!("algebra-Fp", "Fp", algebra::<Fp>, 5000, 400_000, 64, &[("generic", 200)]);
     add!("rotation-Q", "Q", rotation::<Q>, 5000, 400_000, 64, &[("generic", 100)]);
-    add!("rotation-Fp", "Fp", rotation::<Fp>, 5000, 400_000, 64, &[("generic", 200)]);
+    add!("rotation-Fp", "Fp", rotation::<Fp>, 5000, 400_000, 96, &[("generic", 200)]);
     add!("product_rotation-f64", "f64", product_f64, 8000, 500_000, 128, &[("generic+top-binade-vector", 50), ("near-one+top-binade-vector", 50), ("wide-magnitudes+top-binade-vector", 50), ("unit+top-binade-vector", 50)]);
     Property {
         id: "C04",
